@@ -86,3 +86,40 @@ def getter_returns_state(repo, rel, cls_name="Service", getter="get_current_serv
     good = [r for r in rets if isinstance(r.value, ast.Subscript) and dotted(r.value.value) == "self.service_meta"
             and isinstance(r.value.slice, ast.Constant) and r.value.slice.value == "state"]
     return fi, rets, good
+
+
+def predicate_branches(fi, predicate_name):
+    """Statements of `fi` that run only when <...>.predicate_name(...) held / only when it did not.
+
+    The test may be written either way round (`if p(): A else: B`, `if not p(): B else: A`, guard with early return): the
+    sides are decided on the statement CFG - a node belongs to the 'held' side when it is reachable from the outcome edge
+    that means "held" and not from the other one.  -> (held statements, not-held statements, test node) or None when no
+    branch of that shape exists (compound tests are not interpreted)."""
+    from .cfg import cfg_of
+    cfg = cfg_of(fi.node)
+    for n in cfg.nodes:
+        if n.kind != "test":
+            continue
+        e, pol = n.ast, True
+        while isinstance(e, ast.UnaryOp) and isinstance(e.op, ast.Not):
+            e, pol = e.operand, not pol
+        if not (isinstance(e, ast.Call) and ((dotted(e.func) or "").endswith("." + predicate_name) or dotted(e.func) == predicate_name)):
+            continue
+        sides = {True: set(), False: set()}
+        for b, lab in cfg.succ[n.id]:
+            if lab is True or lab is False:
+                side = sides[lab is pol]
+                side.add(b)
+                side |= {x for x in cfg.reachable(b, skip_exc=True)}
+        held, nheld = sides[True] - sides[False], sides[False] - sides[True]
+
+        def stmts(ids):
+            out, seen = [], set()
+            for i in sorted(ids):
+                st = cfg.nodes[i].stmt
+                if st is not None and cfg.nodes[i].ast is not None and id(st) not in seen:
+                    seen.add(id(st))
+                    out.append(st)
+            return out
+        return stmts(held), stmts(nheld), n
+    return None
